@@ -77,6 +77,18 @@ func (p *Pool) free() int {
 //go:norace
 func (p *Pool) nonEmpty() bool { return p.count > 0 }
 
+//go:norace
+func (p *Pool) holds(d unsafe.Pointer) bool {
+	for i := 0; i < slots; i++ {
+		if p.full[i] {
+			if b := p.slot[i].Load(); b != nil && dataPtr(b.v) == d {
+				return true
+			}
+		}
+	}
+	return false
+}
+
 func dataPtr(v any) unsafe.Pointer {
 	type eface struct{ t, d unsafe.Pointer }
 	return (*eface)(unsafe.Pointer(&v)).d
@@ -125,6 +137,10 @@ func (p *Pool) Put(x any) {
 	p.sync()
 	if x == nil {
 		return
+	}
+	if p.holds(dataPtr(x)) {
+		// handed back a second time: it would be handed out to two holders
+		vsched.Report("ownership: thread " + vsched.Itoa(vsched.CurrentThread()) + " handed a pooled object back while the pool already holds it (double hand-back)")
 	}
 	vsched.Release(dataPtr(x))
 	if i := p.free(); i >= 0 {
